@@ -1797,6 +1797,13 @@ _STATE_HOLDERS = {
         ("container-mutation",),
         "filled by the @_error_name decorator while errors.py is imported; "
         "constant afterwards"),
+    ("pytype/imports/builtin_stubs.py", "_cached_builtins_pytd"): (
+        ("container-mutation",),
+        "since fix 12ebd0a (D48) a dict keyed by dataclasses.astuple(options): "
+        "the value is the parse of the bundled stubs under exactly those "
+        "options, a function of the key and pytype's own files; before the "
+        "fix it was a one-slot list that served the first parse to every "
+        "later analysis whatever its options"),
     ("pytype/overlays/fiddle_overlay.py", "_INSTANCE_CACHE"): (
         ("container-mutation",),
         "keyed by (ctx.root_node, abstract class, kind): the key consists of "
